@@ -169,7 +169,7 @@ def run_instance(modname, obname, prop, params, cfg):
             if len(res["cex"]) < MAX_CEX:
                 rec = record_cex(f"no_unexpected_exception[{cls}]", pm, cls)
                 rec["exc"] = f"{cls}: {e}"[:300]
-                rec["trace"] = "".join(traceback.format_tb(e.__traceback__)[-4:])[-1500:]
+                rec["trace"] = "".join(traceback.format_tb(e.__traceback__)[-9:])[-3500:]
             else:
                 res["cex"].append(dict(claim=f"no_unexpected_exception[{cls}]", reproduced=None, skipped=True))
             return
